@@ -1,13 +1,10 @@
 NOTES = ("Machine-checked proof in Coq 8.16.1; see DESIGN.md. KNOWN_FINDINGS.json lists genuine defects of mdtraj "
          "found by the checks (kind=known) and repaired ones (kind=fixed, 'fix:' commits in /repo).")
 
-CHECKS = {
- "C18": {
-  "technique": "Coq refinement proof (reader state machines refine an abstract cursor, induction over op histories) + vm_compute correspondence against real files",
-  "text": "Theorems cursor_refines_{h5,sequential,xtc,netcdf_fixed}: for every file and every in-range op history the reader model returns exactly the abstract cursor's frames/positions/len; handles_independent; len_stable; the as-found NetCDF and TRR readers are proved NOT to refine it (…_refuted). The models are tied to /repo on every run: each history is executed on real files of all 10 formats and compared, inside coqc, with the model variant assigned to the format and with the abstract cursor.",
-  "note": "Trusted: Coq kernel + vm_compute; no axioms (Print Assumptions: closed). Modelled, not verified: file contents as a list of frame identifiers; xdrfile/dcdplugin/PyTables/netCDF byte-level I/O; TRR/XTC read-ahead chunk assumed larger than the file (T<100 in the runs). .pyx readers are tied by correspondence with the compiled binary only.",
- },
-}
+import glob, json, os
+CHECKS = {}
+for _p in sorted(glob.glob(os.path.join(os.path.dirname(os.path.abspath(__file__)), "manifest", "C*.json"))):
+    CHECKS[os.path.basename(_p)[:-5]] = json.load(open(_p))
 
 _WIP = "check under construction in this session (DESIGN.md section 5 describes the planned model and theorems); not claimed yet"
 NOT_APPLICABLE = {p: _WIP for p in ["C%02d" % i for i in range(1, 21)]}
